@@ -284,6 +284,16 @@ theorem order1_reproduces_linear (d : Pos α) (nbrs : List (Nbr α)) (a : α) (g
     simp only [affineSol] at this
     linarith
 
+/-- The defect repaired by `fix: first-order interpolation resets all four
+components per point`: in the pinned code the z-gradient right-hand side of a
+second `interpolate` call is off by exactly what the first call left behind, so
+in 3-D the system no longer is the moment system of the field (components 0..2
+were unaffected, which is why 1-D and 2-D results were right). -/
+theorem pinned_order1_rhs_accumulates (prev : α) (nbrs : List (Nbr α)) (r : Nat) :
+    psphEntryOrig prev nbrs r = psphEntry nbrs r + (if r = 3 then prev else 0) := by
+  unfold psphEntryOrig
+  rw [foldl_step_eq (psphStep r) (psphTerm r) (fun _ _ => rfl), psphEntry_eq]; ring
+
 /-! ## bindings: interpolate always works on the latest rebinding -/
 
 /-- After ANY history of `set_interpolation_points` / `update_particle_arrays` /
